@@ -124,7 +124,7 @@ func judgeRetx(w *world) {
 				continue
 			}
 			judged++
-			attrs := map[string]string{"plan": strings.TrimSuffix(strings.TrimSuffix(ex.plan, "!changed"), "+norel"), "qos": fmt.Sprint(ex.qos)}
+			attrs := map[string]string{"plan": strings.TrimSuffix(strings.SplitN(ex.plan, "!", 2)[0], "+norel"), "qos": fmt.Sprint(ex.qos)}
 			if strings.Contains(ex.plan, "!changed") {
 				w.o.violate("C03", "retransmission-altered", len(w.c.Steps), endMs, attrs, "subscriber %d: a retransmission of %s (id %d) carried a different topic, payload or QoS", id, ex.tag, ex.pid)
 			}
